@@ -1,80 +1,17 @@
 package main
 
-// ext_mapiter.go — "visited" sets for `for k, v := range m` over a map that the loop does not write (added for C02).
+// ext_mapiter.go — two small map facts added for C02 (the visited-set model of map ranges that used to live here was
+// replaced by the merged one in ext_crypto.go: `visited(k)`).
 //
-// The base model of a map range (instr.go: next) yields an arbitrary present key at every iteration and knows nothing at
-// loop exit, so "every entry of m was processed" cannot be proved. This extension keeps, per map object, the ghost set of
-// keys the CURRENT range statement has already produced:
-//
-//   it = range m            visited[m] := {}
-//   ok, k, v = next it      ok  ==> has(m, k) && !visited[m][k];   visited[m] := visited[m] ∪ {k}     (when ok)
-//                           !ok ==> forall k :: has(m, k) ==> visited[m][k]
-//
-// and the spec builtin `visited(m, k)` (read at the loop head: the keys produced by the iterations completed so far).
-// Go guarantees exactly this for a map that is not modified during the iteration (each entry is produced exactly once). If an
-// entry is inserted or deleted while ranging, an entry may be skipped, so the two extra facts are ONLY assumed when
-//   * the `next` is the loop-header instruction of a natural loop and the `range` instruction lies outside that loop, and
-//   * no instruction of the loop body (including callees, by their frames) writes the has-component of that map TYPE
-//     (fc.loopWrites, computed in the first pass; a `*` write also disables it).
-// Otherwise the behaviour is the base model, unchanged. The visited component is ghost state ("G|it|..."): it is exempt from
-// modifies-frames, is havocked at loop heads like any component written in the body, and no program value depends on it.
+//   * map type tags: every non-nil map value of static type T satisfies mtype(p) == tag(underlying map type of T) (part of wf),
+//     so maps of different key/element types never alias (all map lengths live in the one component ML);
+//   * where the code takes len(m) of a map, a result of 0 means that m has no entry (the converse direction, len > 0 ==> some
+//     key, is mapLenWitness in ext_c34.go).
 
 import (
 	"fmt"
 	"go/types"
-
-	"golang.org/x/tools/go/ssa"
 )
-
-func (fc *FnCtx) mapIterComp(m *types.Map) string {
-	ks := fc.tc.sortOf(m.Key())
-	key := "G|it|" + mangle(types.TypeString(m.Key(), nil))
-	fc.registerComp(key, "(Array Ptr (Array "+ks+" Bool))")
-	return key
-}
-
-// extRangeInit: `range m` over a map starts with an empty visited set.
-func (fr *Frame) extRangeInit(x *ssa.Range, st *State) {
-	mt, ok := x.X.Type().Underlying().(*types.Map)
-	if !ok {
-		return
-	}
-	fc := fr.fc
-	key := fc.mapIterComp(mt)
-	ks := fc.tc.sortOf(mt.Key())
-	cur := fc.comp(st, key, fc.comps[key])
-	empty := "((as const (Array " + ks + " Bool)) false)"
-	fc.setComp(st, key, fc.comps[key], app("store", cur, fr.val(x.X).t, empty))
-}
-
-// extMapNext: the two facts of an unmodified map and the update of the visited set (see the header comment).
-func (fr *Frame) extMapNext(x *ssa.Next, mt *types.Map, m, k, ok string, st *State, g string) {
-	fc := fr.fc
-	rng, isRange := x.Iter.(*ssa.Range)
-	if !isRange {
-		return
-	}
-	li := fr.loops[x.Block()]
-	if li == nil || li.body[rng.Block()] {
-		return
-	}
-	mh, _ := fc.mapComps(mt)
-	if !fc.dry {
-		lw := fc.loopWrites[fmt.Sprintf("%s#%d", fr.prefix, x.Block().Index)]
-		if lw["*"] || lw[mh] {
-			return // the loop may write a map of this type: no completeness claim
-		}
-	}
-	key := fc.mapIterComp(mt)
-	ks := fc.tc.sortOf(mt.Key())
-	cur := fc.comp(st, key, fc.comps[key])
-	vis := app("select", cur, m)
-	has := app("select", fc.comp(st, mh, fc.comps[mh]), m)
-	fc.assume(g, implies(ok, not(app("select", vis, k))))
-	fc.assume(g, implies(not(ok), fmt.Sprintf("(forall ((vk %s)) (! (=> (select %s vk) (select %s vk)) :pattern ((select %s vk))))", ks, has, vis, has)))
-	fc.setComp(st, key, fc.comps[key], app("store", cur, m, ite(ok, app("store", vis, k, "true"), vis)))
-	fc.assumes["map range over a map the loop does not write: every entry is produced exactly once (visited sets, ext_mapiter.go)"] = true
-}
 
 // mapTypeFact: every non-nil map value of static type t has the tag of t's underlying map type. Conversions between map types
 // need identical underlying types, so one object never has two tags: maps of different key/element types are different objects
@@ -107,18 +44,4 @@ func (fr *Frame) extMapLenEmpty(mt *types.Map, m, l string, st *State) {
 	has := app("select", fc.comp(st, mh, fc.comps[mh]), m)
 	fc.assume("true", implies(and(not(eq(m, nilPtr)), eq(l, "0")),
 		fmt.Sprintf("(forall ((vk %s)) (! (not (select %s vk)) :pattern ((select %s vk))))", ks, has, has)))
-}
-
-// `hint after <callee> E`: E may name the results of that call as callresult0, callresult1, ... and (last result, if an error) callerr.
-// (The source-level variables the results are assigned to are not yet updated at the hint point: `err` there still denotes the previous value.)
-var hintCallRes = map[*Frame][]SV{}
-
-func bindHintCallResults(fr *Frame, env *SpecEnv) {
-	res := hintCallRes[fr]
-	for i, r := range res {
-		env.vars[fmt.Sprintf("callresult%d", i)] = r
-		if i == len(res)-1 && r.typ != nil && isErrorType(r.typ) {
-			env.vars["callerr"] = r
-		}
-	}
 }
